@@ -104,6 +104,23 @@ Proof.
 Qed.
 Print Assumptions C11_pipe_rearm.
 
+(* The client's stream reader (api/client.go Select in stream mode, started at `tail`): whatever is appended in the gaps
+   between its requests and while they wait, the handler receives every record appended after the first request was
+   resolved, each once, in order -- because the loop continues from the request the server returned also after an
+   empty (timed-out) answer. *)
+Definition C11_select_statement (advance : bool) : Prop :=
+  forall n b d tl, sel_run advance STail n ((b, d) :: tl) = seq (n + b) (d + appended tl).
+
+Theorem C11_select_no_skip : C11_select_statement code_select_advances.
+Proof. intros n b d tl. exact (sel_run_tail n b d tl). Qed.
+Print Assumptions C11_select_no_skip.
+
+(* a client that re-sends its original request after an empty answer loses the record appended in the gap: 3 records,
+   an empty wait, one record appended before the next request reaches the server: `tail` is resolved again, behind it *)
+Theorem C11_select_resend_refuted : ~ C11_select_statement false.
+Proof. intros H. specialize (H 3 0 0 [(1, 0); (0, 0)]). vm_compute in H. discriminate H. Qed.
+Print Assumptions C11_select_resend_refuted.
+
 (* ---- non-vacuity ---- *)
 (* a sleeping waiter is reachable; the race "flush between capture and registration" ends with the reader woken;
    a flush after registration wakes it through the notification; without a flush it stays asleep *)
